@@ -13,6 +13,7 @@ func init() {
 	vhRegister("VH_C02_Grouping", func(p []int) { VH_C02_Grouping(p[0], p[1]) })
 	vhRegister("VH_C02_Category", func(p []int) { VH_C02_Category(p[0], p[1]) })
 	vhRegister("VH_C03_Labels", func(p []int) { VH_C03_Labels(p[0]) })
+	vhRegister("VH_C03_OpenRotate", func(p []int) { VH_C03_OpenRotate() })
 	vhRegister("VH_C08_Retain", func(p []int) { VH_C08_Retain(p[0]) })
 }
 
@@ -164,6 +165,41 @@ func VH_C03_Labels(U int) {
 	want := vhBoundary(h, len(h.evs), calls)
 	vhAssert(pos.Filename == want.Filename && pos.Offset == want.Offset, "the position kept at the end is the last end label (moved by later rotations)")
 	vhCover("labels")
+}
+
+// VH_C03_OpenRotate: a log rotation arrives while a transaction is still open (its file ends after
+// BEGIN and some statements, without a commit: the tail of a file cut short). The rotation still
+// takes effect: the transactions of the new file -- each opened by its own BEGIN -- are labelled
+// with the rotation target and the new file's offsets, and the unfinished changes are never
+// delivered. (What a statement WITHOUT a BEGIN means right after an unfinished transaction is not
+// stated by any property, so the units that follow the rotation here all start with BEGIN.)
+func VH_C03_OpenRotate() {
+	h := &vHist{ghost: &vGhost{}, tables: []string{"ta", "tb"}}
+	g := &vGen{h: h, symbolic: true}
+	h.start = Position{Filename: "f2", Offset: int64(vhU32())}
+	g.file, g.off = h.start.Filename, h.start.Offset
+	g.add(&vEvent{kind: kRotate, rotName: h.start.Filename, rotPos: h.start.Offset})
+	g.add(&vEvent{kind: kFDE})
+	if vhChoose(2) == 1 {
+		g.unit(uTxXID)
+	}
+	g.add(&vEvent{kind: kQuery, sql: g.kw(0)})
+	g.stmt(0, 1)
+	g.unit(uRotate)
+	g.unit([]int{uTxXID, uTxCommit, uTxRollback}[vhChoose(3)])
+	s := newModelStreamer(h, &vMapper{})
+	calls := 0
+	s.sendTransaction = func(t *Transaction) error {
+		vhCheckTran(h, calls, t, true)
+		calls++
+		return nil
+	}
+	pos, err := s.parseEvents(context.Background(), h.channel())
+	vhAssert(err == nil, "history with an unfinished transaction before a rotation parses without error")
+	vhAssert(calls == len(h.exp), "one transaction per committed unit, none for the unfinished one")
+	want := vhBoundary(h, len(h.evs), calls)
+	vhAssert(pos.Filename == want.Filename && pos.Offset == want.Offset, "the position kept at the end is the last end label (moved by later rotations)")
+	vhCover("open-rotate")
 }
 
 var _ replication.BinlogEvent = (*vEvent)(nil)
